@@ -865,6 +865,11 @@ func (s *Sim) checkAgreement() {
 			if prev.hash != hsh && s.res.Diverge == nil {
 				s.res.Diverge = &divergence{Index: idx, NodeA: prev.node, NodeB: ns.id, DumpA: prev.dump, DumpB: dump, Step: s.step,
 					Class: s.divergeClass(s.nodes[prev.node-1], ns)}
+				if s.k.Nondet && onlyNondetKeysDiffer(prev.dump, dump) {
+					// (between two nodes, or between a node and its own earlier life: a restart
+					// executes the command again from the WAL)
+					s.res.Diverge.Class = "nondeterministic-command"
+				}
 				s.trace("DIVERGE at index %d: n%d vs n%d", idx, prev.node, ns.id)
 			}
 		} else {
